@@ -23,7 +23,7 @@ def _opt_list(elem, max_size=5):
 @st.composite
 def _cases(draw, max_size=9):
     s = draw(gen.score_sets(min_pos=1, min_neg=1, max_size=max_size,
-                            modes=("grid", "grid", "dyadic", "distinct", "int", "float"), mag=1e6))
+                            modes=("grid", "grid", "dyadic", "distinct", "int", "float", "uint"), mag=1e6))
     pops = [len(s["pos"]) + s["ep"], len(s["neg"]) + s["en"]]
     tgt = gen.target_values(pops)
     fnr = draw(_opt_list(tgt))
@@ -32,14 +32,14 @@ def _cases(draw, max_size=9):
     thr = None if thr_n is None else draw(gen.threshold_values(s["pos"] + s["neg"], thr_n, allow_inf=True))
     nb = draw(st.sampled_from([None, 0, 1, 2, 3, 4, 7, 10, 25]))
     # narrow float dtypes for exactly representable score values
-    f32 = draw(st.sampled_from([None, None, "float32", "float16"])) if s["mode"] in ("grid", "dyadic") else None
+    f32 = draw(st.sampled_from([None, None, "float32", "float16", "longdouble"])) if s["mode"] in ("grid", "dyadic") else None
     return dict(s=s, fnr=fnr, fpr=fpr, thr=thr, nb=nb, dtype=f32)
 
 
 def _mk(s, sc, ec, dtype=None):
     from score_analysis import Scores
 
-    dt = int if s["mode"] == "int" else (dtype or float)
+    dt = int if s["mode"] == "int" else np.uint8 if s["mode"] == "uint" else (dtype or float)
     return Scores(np.asarray(s["pos"], dtype=dt), np.asarray(s["neg"], dtype=dt),
                   nb_easy_pos=s["ep"], nb_easy_neg=s["en"], score_class=sc, equal_class=ec)
 
